@@ -12,7 +12,7 @@ from vlib import worldops
 ID = 'C07'
 LEVEL = 'exploration'
 BUDGET = {'quick': 1500, 'thorough': 5000}
-RULE = ('Hypothesis-generated histories of add_processor(new or previously removed instance, priority in '
+RULE = ('Dispatching may be disabled for stretches of the history (toggle): the lifecycle callbacks of processors added, replaced or removed meanwhile are postponed - none runs while disabled, all of them are delivered once when dispatching is enabled again. Hypothesis-generated histories of add_processor(new or previously removed instance, priority in '
         '{None, -3..3}) / remove_processor(type) / process(dt) over a generated hierarchy of 3-6 Processor '
         'subclasses with class-level priority defaults (incl. 0, negatives, inherited), handler flags and, for some '
         'classes, value equality (equal-but-distinct processors of different types); handler processors have '
@@ -106,7 +106,9 @@ def decode_class(p):
 def decode_op(t):
     sel, p = t
     d = [(p >> (4 * i)) & 15 for i in range(4)]
-    kind = ('add', 'add', 'add', 'add', 'remove', 'process', 'process', 'readd', 'arm', 'process', 'failadd')[sel % 11]
+    kind = ('add', 'add', 'add', 'add', 'remove', 'process', 'process', 'readd', 'arm', 'process', 'failadd', 'toggle')[sel % 12]
+    if kind == 'toggle':
+        return ['toggle']
     if kind == 'failadd':
         return ['failadd', d[0] % 6, PRIOS[d[1] % len(PRIOS)]]
     if kind == 'arm':
@@ -122,7 +124,7 @@ def decode_op(t):
 
 def strategy():
     cls = worldops.packed(11 * len(DEFAULTS) * 4 * 36).map(decode_class)
-    op = st.tuples(st.integers(0, 10), worldops.packed(16 ** 4)).map(decode_op)
+    op = st.tuples(st.integers(0, 11), worldops.packed(16 ** 4)).map(decode_op)
     return st.fixed_dictionaries({'classes': st.lists(cls, min_size=3, max_size=6),
                                   'ops': worldops.chunked(op, 40),
                                   # scale: 0, or the length of the priority walk every "readd" turns into (the same
@@ -257,7 +259,7 @@ def run_case(case):
             if p.priority == prio_before and [id(x) for x in world.processors] == [id(x) for x in before]:
                 model[:] = before       # same priority as before: keeping its place among equals is as good
             return
-        check_callbacks([r for r in log[mark:] if r[0] != 'process'], owed)
+        settle([r for r in log[mark:] if r[0] != 'process'], owed)
 
     def do_failing_add(p, prio):
         """add_processor whose on_add raises (user code failing).  What such a call leaves behind is not specified;
@@ -318,6 +320,38 @@ def run_case(case):
                 frame['removed'].add(id(r))
             if maps(r, 'on_remove'):
                 owed.append(('on_remove', id(r)))
+        settle([x for x in log[mark:] if x[0] != 'process'], owed)
+
+    state = {'disabled': False, 'pending': []}
+
+    def settle(seg, owed):
+        # while dispatching is disabled the lifecycle callbacks of processors are postponed like those of components:
+        # nothing runs now, everything owed is delivered - once - when dispatching is enabled again
+        if state['disabled']:
+            if seg:
+                viol('processor_lifecycle_callback_while_dispatching_is_disabled',
+                     got=[(k, repr(r)) for (k, r, a) in seg])
+            state['pending'].extend(owed)
+        else:
+            check_callbacks(seg, owed)
+
+    def toggle():
+        if not state['disabled']:
+            world.dispatch_enabled = False
+            state['disabled'] = True
+            flags['dispatching_disabled_for_a_while'] += 1
+            return
+        mark = len(log)
+        try:
+            world.dispatch_enabled = True
+        except PropertyViolation:
+            raise
+        except Exception as exc:
+            viol('enabling_dispatching_raised', exception=repr(exc))
+        state['disabled'] = False
+        owed, state['pending'] = state['pending'], []
+        if owed:
+            flags['postponed_processor_callbacks_released'] += 1
         check_callbacks([x for x in log[mark:] if x[0] != 'process'], owed)
 
     dts = [0, 1, 0.125, Fraction(1, 3)]
@@ -326,9 +360,11 @@ def run_case(case):
         if op[0] == 'add':
             do_add(new(op[1]), op[2])
             flags['add'] += 1
+        elif op[0] == 'toggle':
+            toggle()
         elif op[0] == 'failadd':
             p_ = new(op[1])
-            if maps(p_, 'on_add'):
+            if maps(p_, 'on_add') and not state['disabled']:
                 do_failing_add(p_, op[2])
             else:
                 do_add(p_, op[2])
@@ -340,7 +376,7 @@ def run_case(case):
             for t in range(case['amp'], 0, -1):
                 do_add(new(op[1]), base + (t if t % 2 else -t))
             flags['priority_walk'] += 1
-        elif op[0] == 'readd' and op[1] % 2 and model and not frame['open']:
+        elif op[0] == 'readd' and op[1] % 2 and model and not frame['open'] and not state['disabled']:
             do_add(model[op[1] // 2 % len(model)], op[2])
         elif op[0] == 'readd':
             if not removed_pool:
@@ -405,6 +441,10 @@ def run_case(case):
             prios = [m.priority for m in model]
             if len(model) >= 3 and len(set(prios)) < len(prios):
                 flags['tie_with_three_or_more'] += 1
+        check_state()
+    if state['disabled']:
+        step_ix = len(case['ops'])
+        toggle()
         check_state()
     nontrivial = (flags['tie_with_three_or_more'] or flags['explicit_zero_or_negative_overrides_default']
                   or flags['replacement'])
